@@ -101,7 +101,8 @@ func netShimDir(rel string) bool {
 	if os.Getenv("VERIF_NO_NETSHIM") != "" {
 		return false
 	}
-	return strings.HasPrefix(rel, "transport/tcp/") || strings.HasPrefix(rel, "transport/ipc/") || strings.HasPrefix(rel, "transport/tlstcp/")
+	return strings.HasPrefix(rel, "transport/tcp/") || strings.HasPrefix(rel, "transport/ipc/") || strings.HasPrefix(rel, "transport/tlstcp/") ||
+		strings.HasPrefix(rel, "transport/ws/") || strings.HasPrefix(rel, "transport/wss/")
 }
 
 func doFile(path, rel string) error {
@@ -150,6 +151,10 @@ func doFile(path, rel string) error {
 		case "crypto/tls":
 			if netShimDir(rel) && strings.HasPrefix(rel, "transport/tlstcp/") {
 				repl, name = modPath+"/verifsim/stls", "tls"
+			}
+		case "github.com/gorilla/websocket":
+			if netShimDir(rel) {
+				repl, name = modPath+"/verifsim/swebsocket", "websocket"
 			}
 		case "time":
 			hasTime = true
